@@ -81,6 +81,10 @@ CHECKS = {
          "At several life points (plain channel, locked sub-channels, pending funding, pending settlement) the peer sends correctly signed but unsafe updates (wrong actor, signature over another state, every sums-preserving edit of locked sub-allocations, replays) and rewrites its own funding/settlement updates on its link (wrong debits/credits, other amounts, index maps, touching other sub-allocations). Whenever the victim adds its own signature to a received update, the staged state is judged against its current state by an independent predicate written from the statement.",
          "Trusted: the predicate (harness/props/c07 acceptable + refmodel.ValidSuccessor); actor taken from the tapped message; virtual-channel funding/settlement at a hub is not in the workload yet.",
          "DESIGN.md §5 C07"),
+ "C12": ("exploration", "runtime monitoring in child processes: hostile decodable message sequences delivered to a real client at several life points; oracle = process survival (parent attributes deaths to the announced case) plus liveness probes on the attacked and a control channel",
+         "Sequences of 1-4 envelopes from a catalogue of 43 structured hostile messages over every request/response type (built from live templates with valid IDs, versions and signatures) and byte-level mutants that still decode, each delivered only after a serializer round trip, at the life points idle / update in flight / during an opening / after registration. Afterwards the victim's channel lock must be free and it must answer a valid incoming update within 45 s (library waits on these paths are 10 s), on the attacked and on an untouched control channel.",
+         "Trusted: child-process attribution (a death is charged to the most recently announced case); the patience restatement of 'permanently'; the harness holds the adversary's and - to emulate states the victim signed earlier - the victim's key when building virtual channel states.",
+         "DESIGN.md §5 C12, appendix C"),
 }
 PENDING = {}  # id -> reason, for properties without a check
 
